@@ -299,6 +299,80 @@ class ParserModel:
         self._truthy[name] = ok
         return ok
 
+    # ------------------------------------------------------------ forward token-type facts
+    def may_consume_methods(self) -> set[str]:
+        """Parser methods that can move the token position (transitively)"""
+        if getattr(self, "_mc", None) is not None:
+            return self._mc
+        direct: set[str] = set()
+        calls: dict[str, set[str]] = {}
+        for name, fi in self.cls.methods.items():
+            calls[name] = set()
+            for n in walk_no_nested(fi.node):
+                if isinstance(n, ast.Call) and isinstance(n.func, ast.Attribute) and isinstance(n.func.value, ast.Name) and n.func.value.id == "self":
+                    calls[name].add(n.func.attr)
+                if isinstance(n, (ast.Assign, ast.AugAssign)):
+                    tg = n.targets if isinstance(n, ast.Assign) else [n.target]
+                    if any(ast.unparse(t) == "self.pos" for t in tg):
+                        direct.add(name)
+        mc = set(direct)
+        changed = True
+        while changed:
+            changed = False
+            for name, cs in calls.items():
+                if name not in mc and cs & mc:
+                    mc.add(name)
+                    changed = True
+        self._mc = mc
+        return mc
+
+    def node_may_consume(self, node_ast: ast.AST | None) -> bool:
+        if node_ast is None:
+            return False
+        mc = self.may_consume_methods()
+        for n in walk_no_nested(node_ast):
+            if isinstance(n, ast.Call) and isinstance(n.func, ast.Attribute) and isinstance(n.func.value, ast.Name) and n.func.value.id == "self" and n.func.attr in mc:
+                return True
+        return False
+
+    def reaching_types(self, fi: FuncInfo) -> dict[int, frozenset[str]]:
+        """for every CFG node: the token types the current token can have when the node starts executing (facts from
+        tests on the current token since the last possible consumption; ALL after anything that may consume)"""
+        cfg = self.cfg(fi)
+        al_all = self.aliases(fi)
+        out: dict[int, frozenset[str]] = {}
+        seen: set[tuple[int, frozenset[str], frozenset[str]]] = set()
+        work = [(cfg.entry, self.types, frozenset())]
+        while work:
+            n, ts, stale = work.pop()
+            key = (n, ts, stale)
+            if key in seen:
+                continue
+            seen.add(key)
+            if len(seen) > self.budget:
+                raise AnalysisError(f"{fi.qualname}: token-type propagation exceeded its budget")
+            out[n] = out.get(n, frozenset()) | ts
+            node = cfg.nodes[n]
+            consumes = node.kind in ("stmt", "test", "iter", "with") and self.node_may_consume(node.ast)
+            ts_after = self.types if consumes else ts
+            stale2 = frozenset(al_all) if consumes else stale
+            if isinstance(node.ast, ast.Assign) and len(node.ast.targets) == 1 and isinstance(node.ast.targets[0], ast.Name):
+                tgt = node.ast.targets[0].id
+                if tgt in al_all:
+                    stale2 = stale2 - {tgt} if ast.unparse(node.ast.value) == "self.current()" else stale2 | {tgt}
+            for s, lab in cfg.succ[n]:
+                if lab == "x":
+                    if cfg.nodes[s].kind == "handler":
+                        work.append((s, self.types, frozenset(al_all)))
+                    continue
+                ts2 = ts_after
+                if node.kind == "test" and node.ast is not None and lab in ("t", "f") and not consumes:
+                    ts2 = self.refine(node.ast, lab == "t", ts_after, al_all - stale2, fi)
+                    if not ts2:
+                        continue
+                work.append((s, ts2, stale2))
+        return out
+
     # ------------------------------------------------------------ loops
     def loop_cycles_without_progress(self, fi: FuncInfo, head: int):
         cfg = self.cfg(fi)
